@@ -229,6 +229,24 @@ impl Runner {
                 let dst = self.w.nodes[to].addr;
                 self.w.inject(src, dst, data, "raw", u64::MAX, 0);
             }
+            "raw_short" => {
+                // short-header-looking datagram with an unknown connection ID
+                let to = s["to"].as_u64().unwrap_or(0) as usize;
+                let len = s["len"].as_u64().unwrap_or(100) as usize;
+                let salt = s["salt"].as_u64().unwrap_or(1);
+                let mut data: Vec<u8> = (0..len)
+                    .map(|i| (toycrypto::mix(salt * 7919 + i as u64) & 0xff) as u8)
+                    .collect();
+                if !data.is_empty() {
+                    data[0] = 0x40 | (data[0] & 0x3f);
+                }
+                let src = s
+                    .get("from")
+                    .map(addr_from)
+                    .unwrap_or_else(|| self.w.nodes[if to == 0 { 1 } else { 0 }].addr);
+                let dst = self.w.nodes[to].addr;
+                self.w.inject(src, dst, data, "raw", u64::MAX, 0);
+            }
             "mitm" => self.install_mitm(s),
             "spurious" => {
                 // harmless extra calls on a connection
